@@ -4,3 +4,4 @@ import MtailVerif.Props.C15
 #print axioms MtailVerif.C15.framing_any_two_chunkings
 #print axioms MtailVerif.C15.buffer_shape
 #print axioms MtailVerif.C15.every_read_is_offered_room
+#print axioms MtailVerif.C15.streams_skeletons
